@@ -20,10 +20,9 @@ func (msg *MsgUpdateParams) Type() string {
 }
 
 func (msg *MsgUpdateParams) GetSigners() []sdk.AccAddress {
-	creator, err := sdk.AccAddressFromBech32(msg.Authority)
-	if err != nil {
-		panic(err)
-	}
+	// a malformed address gives an empty signer instead of a panic (as in the messages of cosmos-sdk): ValidateBasic
+	// reports it, and x/authz asks a wrapped message for its signers before anything validated it
+	creator, _ := sdk.AccAddressFromBech32(msg.Authority)
 	return []sdk.AccAddress{creator}
 }
 
@@ -56,10 +55,9 @@ func (msg *MsgUpdateSubDistributorParam) Type() string {
 }
 
 func (msg *MsgUpdateSubDistributorParam) GetSigners() []sdk.AccAddress {
-	creator, err := sdk.AccAddressFromBech32(msg.Authority)
-	if err != nil {
-		panic(err)
-	}
+	// a malformed address gives an empty signer instead of a panic (as in the messages of cosmos-sdk): ValidateBasic
+	// reports it, and x/authz asks a wrapped message for its signers before anything validated it
+	creator, _ := sdk.AccAddressFromBech32(msg.Authority)
 	return []sdk.AccAddress{creator}
 }
 
@@ -95,10 +93,9 @@ func (msg *MsgUpdateSubDistributorBurnShareParam) Type() string {
 }
 
 func (msg *MsgUpdateSubDistributorBurnShareParam) GetSigners() []sdk.AccAddress {
-	creator, err := sdk.AccAddressFromBech32(msg.Authority)
-	if err != nil {
-		panic(err)
-	}
+	// a malformed address gives an empty signer instead of a panic (as in the messages of cosmos-sdk): ValidateBasic
+	// reports it, and x/authz asks a wrapped message for its signers before anything validated it
+	creator, _ := sdk.AccAddressFromBech32(msg.Authority)
 	return []sdk.AccAddress{creator}
 }
 
@@ -136,10 +133,9 @@ func (msg *MsgUpdateSubDistributorDestinationShareParam) Type() string {
 }
 
 func (msg *MsgUpdateSubDistributorDestinationShareParam) GetSigners() []sdk.AccAddress {
-	creator, err := sdk.AccAddressFromBech32(msg.Authority)
-	if err != nil {
-		panic(err)
-	}
+	// a malformed address gives an empty signer instead of a panic (as in the messages of cosmos-sdk): ValidateBasic
+	// reports it, and x/authz asks a wrapped message for its signers before anything validated it
+	creator, _ := sdk.AccAddressFromBech32(msg.Authority)
 	return []sdk.AccAddress{creator}
 }
 
